@@ -44,7 +44,8 @@ class Work:
         return os.path.join(self.dir, *p)
 
     def close(self):
-        shutil.rmtree(self.dir, ignore_errors=True)
+        if not os.environ.get("VERIF_KEEP"):
+            shutil.rmtree(self.dir, ignore_errors=True)
 
 
 def cargo_env():
